@@ -179,6 +179,8 @@ def entry_points():
         def send(self, url, **kw):
             class R(object):
                 status_code = 200
+            if url != 'https://md.verif.example/fed.xml' and _ARMED[0]:
+                _EVENTS.append(('http-fetch', str(url)[:200]))          # fetched because the document says so
             r = R()
             r.content = self.content
             r.text = self.content if not isinstance(self.content, bytes) else self.content.decode('utf-8', 'replace')
@@ -267,6 +269,11 @@ def hostile(base, word):
     if 'xinclude' in word:
         i = doc.find('>')
         doc = doc[:i + 1] + '<xi:include xmlns:xi="http://www.w3.org/2001/XInclude" href="file://%s" parse="text"/>' % CANARY_FILE + doc[i + 1:]
+    if 'additional_location' in word and ('<md:EntityDescriptor' in doc or '<md:EntitiesDescriptor' in doc):
+        j = doc.rfind('</md:EntityDescriptor>')
+        if j >= 0:
+            doc = (doc[:j] + '<md:AdditionalMetadataLocation namespace="urn:verif:more">http://%s/more-metadata.xml'
+                   '</md:AdditionalMetadataLocation>' % CANARY_HOST + doc[j:])
     pi = '<?xml-stylesheet type="text/xsl" href="http://%s/evil.xsl"?>' % CANARY_HOST if 'stylesheet_pi' in word else ''
     doc = pi + doctype + doc
     if 'truncate_open_tag' in word:
@@ -275,6 +282,12 @@ def hostile(base, word):
         doc = doc[:len(doc) // 2]
     elif 'truncate_before_close' in word:
         doc = doc[:doc.rfind('</')]
+    if 'leading_text' in word:
+        doc = 'SAMLResponse=' + doc
+    elif 'leading_headers' in word:
+        doc = 'HTTP/1.1 200 OK\r\nContent-Type: text/xml\r\n\r\n' + doc
+    elif 'trailing_text' in word:
+        doc = doc + '\n-- \nsent by the gateway'
     bad = [w for w in word if w.startswith('bad_')]
     if bad:
         i = doc.find('>', doc.find('<saml:Issuer')) if '<saml:Issuer' in doc else doc.find('>')
